@@ -350,3 +350,109 @@ func originKindsParam(p *Program, fn *ssa.Function, v ssa.Value) bool {
 	}
 	return false
 }
+
+// checkReverseSeekCorrected: Cursor.Seek(k) positions at the first key >= k. A function that
+// seeks and then walks BACKWARDS (calls Prev on the same cursor) must, between the Seek and the
+// first Prev that can follow it, compare the key Seek returned with the key it sought (bytes.HasPrefix /
+// Equal / Compare on exactly those two values): without that comparison it cannot know whether
+// Seek overshot, and a reverse range starts at a record above the requested bound (records outside
+// the range are reported). Forward scans need no correction and are not constrained.
+func checkReverseSeekCorrected(c *Ctx, rule string) {
+	p := c.P
+	n := 0
+	for _, fn := range p.FuncsIn("wtxmgr") {
+		var seeks, prevs []*ssa.Call
+		for _, ci := range callsOf(fn) {
+			call, ok := ci.(*ssa.Call)
+			if !ok || !call.Call.IsInvoke() {
+				continue
+			}
+			if call.Call.Method.Pkg() == nil || call.Call.Method.Pkg().Path() != walletdbPath {
+				continue
+			}
+			switch call.Call.Method.Name() {
+			case "Seek":
+				seeks = append(seeks, call)
+			case "Prev":
+				prevs = append(prevs, call)
+			}
+		}
+		if len(seeks) == 0 || len(prevs) == 0 {
+			continue
+		}
+		for _, sk := range seeks {
+			// values that denote the key returned by this Seek: the extract, and loads of fields it is stored to
+			keyFields := map[string]bool{}
+			var keyVals []ssa.Value
+			for _, u := range usesOf(sk) {
+				ex, ok := u.(*ssa.Extract)
+				if !ok || ex.Index != 0 {
+					continue
+				}
+				keyVals = append(keyVals, ex)
+				for _, uu := range usesOf(ex) {
+					if st, ok := uu.(*ssa.Store); ok {
+						if fa, ok := st.Addr.(*ssa.FieldAddr); ok {
+							_, f := fieldAddrName(fa)
+							keyFields[f] = true
+						}
+					}
+				}
+			}
+			sought := sk.Call.Args[0]
+			_, soughtField, _, soughtIsField := fieldOf(stripConv(sought))
+			isKey := func(v ssa.Value) bool {
+				v = stripConv(v)
+				for _, k := range keyVals {
+					if v == k {
+						return true
+					}
+				}
+				if _, f, _, ok := fieldOf(v); ok && keyFields[f] {
+					return true
+				}
+				return false
+			}
+			isSought := func(v ssa.Value) bool {
+				v = stripConv(v)
+				if sameValue(v, sought) {
+					return true
+				}
+				if _, f, _, ok := fieldOf(v); ok && soughtIsField && f == soughtField {
+					return true
+				}
+				return false
+			}
+			isCompare := func(ins ssa.Instruction) bool {
+				call, ok := ins.(*ssa.Call)
+				if !ok {
+					return false
+				}
+				f := call.Call.StaticCallee()
+				if f == nil || f.Pkg == nil || f.Pkg.Pkg.Path() != "bytes" || len(call.Call.Args) != 2 {
+					return false
+				}
+				switch f.Name() {
+				case "HasPrefix", "Equal", "Compare":
+				default:
+					return false
+				}
+				a, b := call.Call.Args[0], call.Call.Args[1]
+				return (isKey(a) && isSought(b)) || (isKey(b) && isSought(a))
+			}
+			q := &PathQuery{Fn: fn, Barrier: isCompare, Target: func(ins ssa.Instruction, _ *ssa.BasicBlock) bool {
+				for _, pv := range prevs {
+					if ins == ssa.Instruction(pv) {
+						return true
+					}
+				}
+				return false
+			}}
+			hits := q.From(sk)
+			n++
+			c.Check(rule, "reverse-seek-compares-found-key-with-sought-key:"+fnName(fn), sk.Pos(), len(hits) == 0,
+				"after Cursor.Seek the cursor is moved backwards without comparing the key Seek returned with the key sought: Seek lands on the NEXT key when the sought one is absent, so a reverse scan starts above its bound and reports records outside the requested range")
+		}
+	}
+	c.Floor(rule, "seek-then-walk-backwards sites", n, 1)
+}
